@@ -9,16 +9,17 @@ namespace Biogo.Proofs.AlignLin
 open Biogo.Spec.Alignment Biogo.AlignLin
 
 /-- no cell exceeds the running best: inner loop -/
-theorem swRowGo_bound (S : Matrix) (hg : GapsNonPos S) (a i : Nat) :
+theorem swRowGo_bound (S : Matrix) (a i : Nat) (hga : S a 0 ≤ 0) :
     ∀ (rest : List Nat) (prev : List Int) (j : Nat) (d l : Int) (best : Best),
-    0 ≤ best.s → d ≤ best.s → l ≤ best.s → (∀ x ∈ prev, x ≤ best.s) →
+    (∀ y ∈ rest, S 0 y ≤ 0) → 0 ≤ best.s → d ≤ best.s → l ≤ best.s → (∀ x ∈ prev, x ≤ best.s) →
     best.s ≤ (swRowGo S a i j d l prev rest best).2.s ∧
     ∀ x ∈ (swRowGo S a i j d l prev rest best).1, x ≤ (swRowGo S a i j d l prev rest best).2.s := by
   intro rest
   induction rest with
-  | nil => intro prev j d l best _ _ _ _; cases prev <;> simp [swRowGo]
+  | nil => intro prev j d l best _ _ _ _ _; cases prev <;> simp [swRowGo]
   | cons b rest ih =>
-    intro prev j d l best h0 hd hl hprev
+    intro prev j d l best hq h0 hd hl hprev
+    have hq' : ∀ y ∈ rest, S 0 y ≤ 0 := fun y hy => hq y (List.mem_cons_of_mem _ hy)
     cases prev with
     | nil => simp [swRowGo]
     | cons u prev' =>
@@ -26,13 +27,12 @@ theorem swRowGo_bound (S : Matrix) (hg : GapsNonPos S) (a i : Nat) :
       have hp' : ∀ x ∈ prev', x ≤ best.s := fun x hx => hprev x (by simp [hx])
       simp only [swRowGo]
       generalize hsc : max3 (d + S a b) (u + S a 0) (l + S 0 b) = sc
-      have hga := (hg a).1
-      have hgb := (hg b).2
+      have hgb := hq b (by simp)
       by_cases hpos : sc > 0
       · by_cases hupd : sc ≥ best.s ∧ sc = d + S a b
         · have hc : (sc > 0 ∧ sc ≥ best.s ∧ sc = d + S a b) := ⟨hpos, hupd⟩
           rw [if_pos hpos, if_pos hc]
-          have := ih prev' (j + 1) u sc ⟨sc, i, j⟩ (by simp; omega) (by simp; omega) (by simp)
+          have := ih prev' (j + 1) u sc ⟨sc, i, j⟩ hq' (by simp; omega) (by simp; omega) (by simp)
             (fun x hx => by have := hp' x hx; simp; omega)
           obtain ⟨h1, h2⟩ := this
           simp only at h1
@@ -51,7 +51,7 @@ theorem swRowGo_bound (S : Matrix) (hg : GapsNonPos S) (a i : Nat) :
               · omega
             · omega
             · omega
-          have := ih prev' (j + 1) u sc best h0 hu hle hp'
+          have := ih prev' (j + 1) u sc best hq' h0 hu hle hp'
           obtain ⟨h1, h2⟩ := this
           refine ⟨h1, ?_⟩
           intro x hx
@@ -61,7 +61,7 @@ theorem swRowGo_bound (S : Matrix) (hg : GapsNonPos S) (a i : Nat) :
           · exact h2 x hx
       · have hc : ¬ (sc > 0 ∧ sc ≥ best.s ∧ sc = d + S a b) := fun h => hpos h.1
         rw [if_neg hpos, if_neg hc]
-        have := ih prev' (j + 1) u 0 best h0 hu h0 hp'
+        have := ih prev' (j + 1) u 0 best hq' h0 hu h0 hp'
         obtain ⟨h1, h2⟩ := this
         refine ⟨h1, ?_⟩
         intro x hx
@@ -71,21 +71,21 @@ theorem swRowGo_bound (S : Matrix) (hg : GapsNonPos S) (a i : Nat) :
         · exact h2 x hx
 
 /-- no cell exceeds the running best: all rows -/
-theorem swRowsFrom_bound (S : Matrix) (hg : GapsNonPos S) (q : List Nat) :
+theorem swRowsFrom_bound (S : Matrix) (q : List Nat) (hq : ∀ y ∈ q, S 0 y ≤ 0) :
     ∀ (rest : List Nat) (prev : List Int) (i : Nat) (best : Best),
-    0 ≤ best.s → (∀ x ∈ prev, x ≤ best.s) →
+    (∀ x ∈ rest, S x 0 ≤ 0) → 0 ≤ best.s → (∀ x ∈ prev, x ≤ best.s) →
     best.s ≤ (swRowsFrom S q i prev rest best).2.s ∧
     ∀ row ∈ (swRowsFrom S q i prev rest best).1, ∀ x ∈ row, x ≤ (swRowsFrom S q i prev rest best).2.s := by
   intro rest
   induction rest with
-  | nil => intro prev i best _ _; simp [swRowsFrom]
+  | nil => intro prev i best _ _ _; simp [swRowsFrom]
   | cons a rest ih =>
-    intro prev i best h0 hprev
+    intro prev i best hr h0 hprev
     cases prev with
     | nil => simp [swRowsFrom]
     | cons p0 prev' =>
       simp only [swRowsFrom]
-      have hin := swRowGo_bound S hg a i q prev' 1 p0 0 best h0 (hprev p0 (by simp)) h0
+      have hin := swRowGo_bound S a i (hr a (by simp)) q prev' 1 p0 0 best hq h0 (hprev p0 (by simp)) h0
         (fun x hx => hprev x (by simp [hx]))
       obtain ⟨hi1, hi2⟩ := hin
       generalize swRowGo S a i 1 p0 0 prev' q best = inner at hi1 hi2 ⊢
@@ -95,7 +95,7 @@ theorem swRowsFrom_bound (S : Matrix) (hg : GapsNonPos S) (q : List Nat) :
         rcases hx with rfl | hx
         · omega
         · exact hi2 x hx
-      have := ih (0 :: inner.1) (i + 1) inner.2 (by omega) hrow
+      have := ih (0 :: inner.1) (i + 1) inner.2 (fun x hx => hr x (List.mem_cons_of_mem _ hx)) (by omega) hrow
       obtain ⟨h1, h2⟩ := this
       refine ⟨by omega, ?_⟩
       intro row hr
@@ -104,9 +104,9 @@ theorem swRowsFrom_bound (S : Matrix) (hg : GapsNonPos S) (q : List Nat) :
       · intro x hx; have := hrow x hx; omega
       · exact h2 row hr
 
-theorem swFill_bound (S : Matrix) (hg : GapsNonPos S) (r q : List Nat) :
+theorem swFill_bound (S : Matrix) (r q : List Nat) (hg : GapsNonPos S r q) :
     0 ≤ (swFill S r q).2.s ∧ ∀ row ∈ (swFill S r q).1, ∀ x ∈ row, x ≤ (swFill S r q).2.s := by
-  have := swRowsFrom_bound S hg q r (List.replicate (q.length + 1) 0) 1 ⟨0, 0, 0⟩ (by simp)
+  have := swRowsFrom_bound S q hg.2 r (List.replicate (q.length + 1) 0) 1 ⟨0, 0, 0⟩ hg.1 (by simp)
     (by intro x hx; simp [List.mem_replicate] at hx; simp [hx])
   obtain ⟨h1, h2⟩ := this
   simp only [swFill]
